@@ -252,6 +252,13 @@ inline bool run_history(Choice &c, Ctx &cx, bool light, unsigned char heapfill, 
             if (!judge_step<T>(cx, H, kind, o, H.val_in, B0, nrhs, ldb, ldx, perm_r_before, digest_before, equed_before, same_values, tag.c_str())) { e.teardown(); vf_purge(); return false; }
             if (cx.skipped) { e.teardown(); vf_purge(); return false; }
         }
+        else {
+            // light mode (C19): no numeric oracle, but the structural predicate is cheap and catches factor objects whose pointers
+            // were not refreshed after storage moved (stale pointers inside a caller workspace are invisible to ASan)
+            FactorShape fs;
+            if (!is_perm(e.perm_r.data(), n) || !is_perm(e.perm_c.data(), n)) { cx.fail("perm", tag + ": perm_r / perm_c is not a bijection"); e.teardown(); vf_purge(); return false; }
+            if (!check_structure<T>(cx, &e.L, &e.U, n, n, false, fs)) { cx.msg = tag + ": " + cx.msg; e.teardown(); vf_purge(); return false; }
+        }
         if (kind == ST_SAMEROW || kind == ST_SAMEPAT) { if (e.stat.expansions > 0) H.reuse_expansions++; H.last_was_reuse = true; }
         else if (kind == ST_RESOLVE) { if (H.last_was_reuse && o.trans != NOTRANS) H.resolves_after_reuse++; }
         else H.last_was_reuse = false;
